@@ -73,7 +73,9 @@ def run(ctx):
         vals = set()
         for b in rec['bb']:
             for st in b['s']:
-                if st[0] == '=' and not st[1][1] and rec['locals'][st[1][0]][1] == 'repartition_random_state':
+                # keyed by type, not by the local's name: every SeededRandomState local initialised in this body
+                if st[0] == '=' and not st[1][1] and rec['locals'][st[1][0]][0].endswith('partitioned_hash_eval::SeededRandomState') \
+                        and rec['locals'][st[1][0]][1]:
                     rv = st[2]
                     if rv[0] == 'use' and rv[1][0] == 'k':
                         vals.add(rv[1][1].get('unev', '?'))
@@ -82,7 +84,7 @@ def run(ctx):
         if vals == {RP + 'REPARTITION_RANDOM_STATE'}:
             ctx.ok('single-routing-seed', 'HashJoinExec::execute routes dynamic filters with REPARTITION_RANDOM_STATE')
         else:
-            ctx.fail('single-routing-seed', 'HashJoinExec::execute', ctx.loc(rec), 'repartition_random_state is initialised from %s, not from REPARTITION_RANDOM_STATE' % sorted(vals),
+            ctx.fail('single-routing-seed', 'HashJoinExec::execute', ctx.loc(rec), 'the routing hash state of the dynamic filter is initialised from %s, not from REPARTITION_RANDOM_STATE' % sorted(vals),
                      key='single-routing-seed|hashjoin-execute')
     # (b)
     cs = set(f.callers_of(RP + 'range_partition_id'))
